@@ -417,7 +417,10 @@ def gen_sels_f(rng, names, raising=False):
     if q < 0.27:
         return [["SelectAll"], where()]
     if q < 0.35:
-        return [where(1.0 if not (raising and rng.random() < 0.3) else 0.6)]       # alone: a date absent from the frame leaves nothing selected
+        w_ = where(1.0 if not (raising and rng.random() < 0.3) else 0.6)       # alone: a date absent from the frame leaves nothing selected
+        if w_[2]["keep"] == 1.0:
+            w_[2]["stamps"] = "midnight"       # ... so the frame of a program offered as well-formed has a row AT every date
+        return [w_]
     if q < 0.62:
         return [["SelectAll"], statn()]
     if q < 0.72:
